@@ -254,7 +254,7 @@ def run(chk):
         rf = recv_sites[0][0]
         for eintr in (True, False):
             dom = _RecvDomain(prog, rf, eintr)
-            outs = Interp(dom, rf.node, prog).run(Env({"n": 0}))
+            outs = Interp(dom, rf.node, prog).run(Env({"#n": 0}))
             rets, excs = outs.of("ret"), outs.of("exc")
             if eintr:
                 ok = len(rets) >= 1 and all(v == Opaque("data-of-call-2") for s, v, t in rets) and not excs
@@ -287,7 +287,7 @@ def run(chk):
     for f in seg:
         dom = AccDomain(prog, f, byte_sources)
         init = {p.name: (ACC if p.name == "buf" else (TOKEN if p.name == "end_tokens" else TOP)) for p in f.params}
-        init["pending"] = 0
+        init["#pending"] = 0
         outs = Interp(dom, f.node, prog).run(Env(init))
         r4.floor("terminator searches reached in %s" % f.name, dom.n_search, 1)
         seen = set()
@@ -356,12 +356,12 @@ class AccDomain(Domain):
         return v in (ACC, NEW, TOKEN, CHUNKS) or super().never_none(v)
 
     def _new(self, state):
-        return NEW, state.set("pending", min(2, state.get("pending", 0) + 1))
+        return NEW, state.set("#pending", min(2, state.get("#pending", 0) + 1))
 
     def binop_s(self, node, l, r, state):
         if isinstance(node.op, ast.Add):
             if l == ACC and r == NEW:
-                return ACC, state.set("pending", max(0, state.get("pending", 0) - 1))
+                return ACC, state.set("#pending", max(0, state.get("#pending", 0) - 1))
             if l == ACC and r not in (NEW, ACC):
                 return ACC, state
             if l == NEW and r == ACC:
@@ -400,7 +400,7 @@ class AccDomain(Domain):
             return [("ok", v, st)]
         if isinstance(fval, tuple) and fval and fval[0] == "meth" and fval[2] in ("find", "index", "rfind", "partition", "split", "endswith", "count") and args and args[0] == TOKEN:
             self.n_search += 1
-            recv, pend = fval[1], state.get("pending", 0)
+            recv, pend = fval[1], state.get("#pending", 0)
             if recv != ACC:
                 self.problems.append(("search-buffer-not-accumulated", "`%s` looks for the end token in `%s`, which does not hold all bytes received since the call began (only the newest piece, or a part of the buffer): an end token that straddles two pieces is never found" % (node_src(node, 70), fval[3]), node))
             elif pend:
@@ -428,8 +428,8 @@ class _RecvDomain(Domain):
 
     def call(self, node, fval, args, kwargs, state):
         if isinstance(node.func, ast.Attribute) and node.func.attr in ("recv", "recv_into"):
-            n = state.get("n", 0)
-            st = state.set("n", min(3, n + 1))
+            n = state.get("#n", 0)
+            st = state.set("#n", min(3, n + 1))
             if n == 0:
                 return [("exc", Exc(ORD, "OSError", node.lineno), st)]
             return [("ok", Opaque("data-of-call-%d" % (n + 1)), st)]
